@@ -21,6 +21,7 @@ import (
 	"strconv"
 	"strings"
 	"sync"
+	"syscall"
 	"time"
 
 	"github.com/magisterquis/curlrevshell/lib/simpleshell"
@@ -62,6 +63,13 @@ func c14Child(args []string) int {
 	st, _ := strconv.Atoi(args[2])
 	if "echo" == args[3] {
 		io.Copy(os.Stdout, os.Stdin)
+	}
+	if st < 0 {
+		/* Die by a signal after writing. */
+		defer func() {
+			syscall.Kill(os.Getpid(), syscall.Signal(-st))
+			select {}
+		}()
 	}
 	switch args[1] {
 	case "stdout":
@@ -107,10 +115,17 @@ func c14ChildState(pid int) string {
 	switch s[i+2] {
 	case 'Z', 'X':
 		return "zombie"
-	case 'S', 'D':
-		sc, _ := os.ReadFile(fmt.Sprintf("/proc/%d/syscall", pid))
+	}
+	/* Blocked in write(2)?  The write may sit on any thread of the child
+	(it is a Go program too), so look at all of them. */
+	tasks, _ := os.ReadDir(fmt.Sprintf("/proc/%d/task", pid))
+	for _, t := range tasks {
+		sc, _ := os.ReadFile(fmt.Sprintf("/proc/%d/task/%s/syscall", pid, t.Name()))
 		if strings.HasPrefix(string(sc), "1 ") { /* write(2) on x86-64 */
-			return "blocked"
+			st, _ := os.ReadFile(fmt.Sprintf("/proc/%d/task/%s/stat", pid, t.Name()))
+			if j := strings.LastIndexByte(string(st), ')'); j >= 0 && j+2 < len(st) && ('S' == st[j+2] || 'D' == st[j+2]) {
+				return "blocked"
+			}
 		}
 	}
 	return "running"
@@ -179,16 +194,29 @@ func c14Run(c c14Case) (sig, what string) {
 			break
 		}
 		if time.Now().After(deadline) {
-			return "child-stuck", "the child neither finished nor blocked within 30 s"
+			/* The observation only chooses the moment to drain; not being
+			able to make it is no verdict about the program. */
+			state = "unknown"
+			break
 		}
 		time.Sleep(200 * time.Microsecond)
 	}
 	if c.Pause > 0 {
 		time.Sleep(time.Duration(c.Pause) * time.Millisecond)
 	}
-	/* Drain. */
+	/* Drain.  The stream must end by itself once the command is gone and
+	its output read, also while the input is still open. */
 	if nil == rerr {
-		_, rerr = io.Copy(&got, out)
+		drained := make(chan error, 1)
+		go func() { _, err := io.Copy(&got, out); drained <- err }()
+		select {
+		case rerr = <-drained:
+		case <-time.After(30 * time.Second):
+			if nil != openW {
+				openW.Close()
+			}
+			return "output-never-ends", fmt.Sprintf("the command is gone (%s) and %d bytes were read, but the output stream did not end within 30 s (input still open: %v)", state, got.Len(), nil != openW)
+		}
 	}
 	if nil != openW {
 		openW.Close()
@@ -299,6 +327,11 @@ func c14(r *ev.Result, tier string) {
 	}
 	/* A consumer that pauses after the child is gone (longer than any
 	"give up on the pipes" delay a rewrite might introduce). */
+	/* A command that dies by a signal is an unsuccessful exit too. */
+	for _, sig := range []int{-9, -15} { /* (not SIGSEGV: the Go runtime of the helper child would print a trace of its own) */
+		cases = append(cases, c14Case{N: 4096, FD: "stdout", ReadR: 0, Input: "empty", Status: sig})
+		cases = append(cases, c14Case{N: 8, FD: "stderr", ReadR: 8, Input: "open", Status: sig})
+	}
 	for _, n := range []int{32776, 65544, 200000} {
 		for _, p := range []int{300, 1200} {
 			if quick && 1200 == p {
